@@ -48,7 +48,14 @@ pub fn calc_cumulative_capital_gains(
     let mut capital_gains_total = Decimal::ZERO;
     let mut cap_gains_year_totals = HashMap::<i32, Decimal>::new();
 
-    for gains in sec_gains.values() {
+    // Add the securities up in name order (not in the map's arbitrary order):
+    // Decimal additions can round in the last of ~28 digits, and the scale of
+    // a sum (e.g. 0 vs 0.00) depends on the order of its operands, so the order
+    // must be the same in every run for the printed figures to be the same.
+    let mut sorted_secs: Vec<&Security> = sec_gains.keys().collect();
+    sorted_secs.sort();
+    for sec in sorted_secs {
+        let gains = &sec_gains[sec];
         capital_gains_total += gains.capital_gains_total;
         for (year, year_gains) in &gains.capital_gains_years_totals {
             let year_total_so_far =
